@@ -13,7 +13,7 @@ static const char *w_name = "tree";
 static unsigned w_prop_bit(const char *id) { return !strcmp(id, "C01") ? PC01 : !strcmp(id, "C02") ? PC02 : !strcmp(id, "C15") ? PC15 : 0; }
 
 #define MAXN 14
-struct elem { long pad; int key; int idx; struct cstl_rbtree_node rn; long tail; };
+struct elem { long pad; int key; int idx; struct cstl_rbtree_node rn; long tail; struct cstl_rbtree_node rn2; };      /* rn2: where the OTHER tree object's elements would keep their node; never linked */
 static struct elem pool[MAXN];
 static int N, keys[MAXN], nkeys_alpha, key_alpha[MAXN + 2];
 static int RB, CMPMODE;       /* 0 difference, 1 sign only, 2 reversed */
@@ -79,23 +79,33 @@ static void w_setup(int cfg, int thorough)
 static const char *w_config_desc(void) { return cfgdesc; }
 
 static unsigned long cmp_calls;
+static int cookie[2], wrong_priv, wrong_cmp;     /* each tree object is initialised with its own comparator, private pointer and node offset */
 static int cmp_elem(const void *a, const void *b, void *p)
 {
     int d = ((const struct elem *)a)->key - ((const struct elem *)b)->key;
-    (void)p; cmp_calls++;
+    cmp_calls++; if (p != (void *)&cookie[0]) wrong_priv++;
     if (CMPMODE == 1) return d < 0 ? -1 : d > 0;
     if (CMPMODE == 2) return -d;
     if (CMPMODE == 3) return d < 0 ? INT_MIN : d > 0 ? INT_MAX : 0;       /* extreme magnitudes: -result would overflow */
     return d;
 }
+/* the comparator of the second tree object (which never holds an element under its own configuration): opposite order */
+static int cmp_other(const void *a, const void *b, void *p) { (void)p; wrong_cmp++; return ((const struct elem *)b)->key - ((const struct elem *)a)->key; }
 static int korder(int ka, int kb) { int d = ka - kb; return CMPMODE == 2 ? -d : d; }
 
 /* generic wrappers over the two tree kinds */
 static void t_init(int t)
 {
     memset(&T[t], 0xA5, sizeof T[t]);
-    if (RB) cstl_rbtree_init(&T[t].rb, cmp_elem, NULL, offsetof(struct elem, rn));
-    else cstl_bintree_init(&T[t].bt, cmp_elem, NULL, offsetof(struct elem, rn) + offsetof(struct cstl_rbtree_node, n));
+    if (RB) cstl_rbtree_init(&T[t].rb, cmp_elem, &cookie[0], offsetof(struct elem, rn));
+    else cstl_bintree_init(&T[t].bt, cmp_elem, &cookie[0], offsetof(struct elem, rn) + offsetof(struct cstl_rbtree_node, n));
+}
+/* the second object is a tree of another kind: other comparator, other private pointer, node at another offset */
+static void t_init_other(int t)
+{
+    memset(&T[t], 0xA5, sizeof T[t]);
+    if (RB) cstl_rbtree_init(&T[t].rb, cmp_other, &cookie[1], offsetof(struct elem, rn2));
+    else cstl_bintree_init(&T[t].bt, cmp_other, &cookie[1], offsetof(struct elem, rn2) + offsetof(struct cstl_rbtree_node, n));
 }
 static struct cstl_bintree *t_bt(int t) { return RB ? &T[t].rb.t : &T[t].bt; }
 static size_t t_size(int t) { return RB ? cstl_rbtree_size(&T[t].rb) : cstl_bintree_size(&T[t].bt); }
@@ -117,8 +127,8 @@ static void w_init(void)
     __asan_unpoison_memory_region(pool, sizeof pool);
     memset(pool, 0x5A, sizeof pool);
     for (i = 0; i < N; i++) { pool[i].key = keys[i]; pool[i].idx = i; pool[i].pad = 0x1111; pool[i].tail = 0x2222; m_member[i] = 0; }
-    m_count = 0;
-    t_init(0); t_init(1);
+    m_count = 0; wrong_priv = wrong_cmp = 0;
+    t_init(0); t_init_other(1);
 }
 
 static int w_enabled(mc_op_t o)
@@ -177,6 +187,7 @@ static void classify_erase(const struct elem *e)
 
 static void audit_tree(int t, unsigned props);
 static void check_fresh(void);
+static int untouched(const void *p, size_t n) { const unsigned char *b = p; while (n--) if (*b++ != 0x5A) return 0; return 1; }
 
 static void w_apply(mc_op_t o)
 {
@@ -239,6 +250,21 @@ static void w_apply(mc_op_t o)
         if (mc_checking) {
             MC_CHECK(PC01, t_size(0) == 0, "after swap the formerly empty tree reports size %zu", t_size(0));
             audit_tree(1, PC01);
+            MC_CHECK(PC01 | PC02, wrong_cmp == 0 && wrong_priv == 0, "after swap the tree object holding the content compares with the comparator/private pointer it was initialised with, not the ones that belong to the content (%d/%d calls)", wrong_cmp, wrong_priv);
+        }
+        /* the object that received the content is a complete tree: it takes an insert and an erase like the original (every member
+         * of the tree object travels with the content: comparator, private pointer, both node offsets) */
+        for (i = 0; i < N && m_member[i]; i++) ;
+        if (i < N && !mc_branch_dead) {
+            SHIM_CALL(ab, t_insert(1, &pool[i], NULL));
+            if (ab) break;
+            m_member[i] = 1; m_count++;
+            if (mc_checking) MC_CHECK(PC01 | PC02, t_size(1) == (size_t)m_count, "insert into the tree object that received the content by swap: size %zu, expected %d", t_size(1), m_count);
+            SHIM_CALL(ab, rp = t_erase(1, &pool[i]));
+            if (ab) break;
+            { int j = rp ? idx_of(rp) : -1;
+              MC_CHECK(PC01 | PC02, j >= 0 && m_member[j] && keys[j] == keys[i], "erase from the tree object that received the content by swap returned %s", rp ? "a pointer that is no held equal element" : "NULL");
+              if (j >= 0 && m_member[j]) { m_member[j] = 0; m_count--; } }
         }
         SHIM_CALL(ab, t_swap());
         break;
@@ -346,6 +372,8 @@ static void w_audit(void)
     audit_tree(0, PC01);
     if (mc_branch_dead) return;
     MC_CHECK(PC01, t_size(1) == 0 && t_bt(1)->root == NULL, "the second (empty) tree object was disturbed");
+    MC_CHECK(PC01 | PC02, wrong_cmp == 0, "the comparison function of the OTHER (empty) tree object was called %d times: swap did not move the comparator with the content", wrong_cmp);
+    MC_CHECK(PC01 | PC02, wrong_priv == 0, "the comparison function received a private pointer other than the one its tree was initialised with (%d calls)", wrong_priv);
     if (RB) {
         const struct cstl_bintree *bt = t_bt(0);
         size_t hmin = 0, hmax = 0; int ab;
@@ -369,7 +397,7 @@ static void w_audit(void)
             MC_CHECK(PC02, (m_count == 0) == (hmax == 0) && hmin <= hmax, "cstl_rbtree_height reports min %zu max %zu for %d elements", hmin, hmax, m_count);
         }
     }
-    for (k = 0; k < N; k++) MC_CHECK(PC01, pool[k].pad == 0x1111 && pool[k].tail == 0x2222 && pool[k].key == keys[k] && pool[k].idx == k, "element %d: bytes outside its tree node were modified", k);
+    for (k = 0; k < N; k++) MC_CHECK(PC01 | PC02, pool[k].pad == 0x1111 && pool[k].tail == 0x2222 && pool[k].key == keys[k] && pool[k].idx == k && untouched(&pool[k].rn2, sizeof pool[k].rn2), "element %d: bytes outside its tree node were modified", k);
 }
 
 /* canonical key: preorder over the raw links with pool indices for addresses */
@@ -397,15 +425,18 @@ static void ck(const struct cstl_bintree_node *bn)
 }
 static void canon_one(int t)
 {
-    { ck_nodes = 0; KB_C('T'); KB_U(t_bt(t)->size); KB_C('o'); KB_U(t_bt(t)->off); if (RB) { KB_C('/'); KB_U(T[t].rb.off); } KB_C(':'); ck(t_bt(t)->root); }
+    { ck_nodes = 0; KB_C('T'); KB_U(t_bt(t)->size); KB_C('o'); KB_U(t_bt(t)->off); if (RB) { KB_C('/'); KB_U(T[t].rb.off); }
+      KB_C(t_bt(t)->cmp.func == cmp_elem ? 'e' : t_bt(t)->cmp.func == cmp_other ? 'o' : '?'); KB_C(t_bt(t)->cmp.priv == (void *)&cookie[0] ? '0' : t_bt(t)->cmp.priv == (void *)&cookie[1] ? '1' : '?'); KB_C(':'); ck(t_bt(t)->root); }
 }
-static void w_canon(void) { int i; canon_one(0); canon_one(1); KB_C('m'); for (i = 0; i < N; i++) KB_C(m_member[i] ? '1' : '0'); for (i = 0; i < N; i++) if (pool[i].pad != 0x1111 || pool[i].tail != 0x2222 || pool[i].key != keys[i]) { KB_C('X'); KB_U((unsigned)i); } }
-/* C15: after clear the tree object must be field-for-field like the never-used second tree object */
+static void w_canon(void) { int i; canon_one(0); canon_one(1); KB_C('m'); for (i = 0; i < N; i++) KB_C(m_member[i] ? '1' : '0'); for (i = 0; i < N; i++) if (pool[i].pad != 0x1111 || pool[i].tail != 0x2222 || pool[i].key != keys[i] || !untouched(&pool[i].rn2, sizeof pool[i].rn2)) { KB_C('X'); KB_U((unsigned)i); } KB_C('w'); KB_U((unsigned)(wrong_cmp != 0)); KB_U((unsigned)(wrong_priv != 0)); }
+/* C15: after clear the tree object must be field-for-field like a never-used tree object of the same configuration */
 static void check_fresh(void)
 {
     char a[128], b[128]; size_t save = mc_kbn, n;
     mc_kbn = 0; canon_one(0); n = mc_kbn < 127 ? mc_kbn : 127; memcpy(a, mc_kb, n); a[n] = 0;
-    mc_kbn = 0; canon_one(1); n = mc_kbn < 127 ? mc_kbn : 127; memcpy(b, mc_kb, n); b[n] = 0;
+    { char keep[sizeof T[1]]; memcpy(keep, &T[1], sizeof keep); t_init(1);       /* a never-used object of the same configuration */
+      mc_kbn = 0; canon_one(1); n = mc_kbn < 127 ? mc_kbn : 127; memcpy(b, mc_kb, n); b[n] = 0;
+      memcpy(&T[1], keep, sizeof keep); }
     mc_kbn = save;
     MC_CHECK(PC15, !strcmp(a, b), "after clear the tree is not like a freshly initialised one: fields %s, fresh %s", a, b);
 }
